@@ -528,6 +528,32 @@ BUILTINS = {
 }
 
 
+def _next(it, *default):
+    """next(): generator expressions are materialised lists in the model,
+    so a list stands for a fresh iterator over it"""
+    if len(default) > 1:
+        raise ModelFault("next expected at most 2 arguments")
+    if isinstance(it, (list, tuple)):
+        it = iter(it)
+    try:
+        return next(it)
+    except StopIteration:
+        if default:
+            return default[0]
+        raise ModelFault("next() on an exhausted iterator (StopIteration)")
+    except TypeError:
+        raise MiniError("next() of a non-iterator model value")
+
+
+def _getattr(o, name, *default):
+    try:
+        return getattr(o, name)
+    except (AttributeError, MiniError):
+        if default:
+            return default[0]
+        raise ModelFault(f"object has no attribute '{name}'")
+
+
 def _namedtuple(typename, field_names, *, rename=False, defaults=None,
                 module=None):
     """named tuples are plain tuples with named fields: attribute access is
@@ -536,6 +562,26 @@ def _namedtuple(typename, field_names, *, rename=False, defaults=None,
     return collections.namedtuple(typename, field_names, rename=rename,
                                   defaults=defaults)
 
+
+# further harmless builtins (pure; exception classes are only ever raised,
+# which the interpreter turns into a ModelFault)
+BUILTINS.update({
+    "next": _next, "iter": iter, "divmod": divmod, "pow": pow, "map": map,
+    "filter": filter, "slice": slice, "ord": ord, "chr": chr, "hex": hex,
+    "bin": bin, "format": format, "callable": callable, "hash": hash,
+    "complex": complex, "frozenset": frozenset, "bytes": bytes,
+    "bytearray": bytearray, "repr": repr, "getattr": _getattr,
+    "NotImplemented": NotImplemented, "Ellipsis": Ellipsis,
+    "RuntimeError": RuntimeError, "IOError": IOError,
+    "StopIteration": StopIteration, "AssertionError": AssertionError,
+    "ZeroDivisionError": ZeroDivisionError,
+    "FileNotFoundError": FileNotFoundError, "NameError": NameError,
+    "ImportError": ImportError, "AttributeError": AttributeError,
+    "UnicodeDecodeError": UnicodeDecodeError,
+    "PermissionError": PermissionError, "LookupError": LookupError,
+    "ArithmeticError": ArithmeticError, "FloatingPointError":
+        FloatingPointError,
+})
 
 # standard-library names an interpreted module may use for plain data
 BUILTINS.update({
